@@ -35,7 +35,7 @@ def foreign_campaigns(prop, tier):
     for mod, rx in FOREIGN.get(prop, []):
         # C06B (large operands, ~1 ms per case) and C13 (thread histories) keep their own budgets
         out.append(Campaign(mod, "plain", cases=(None if mod in ("C06B", "C13") else (1500000 if tier == "quick" else 15000000)), keymap=(rx, prop)))
-        if mod.endswith("X"):
+        if mod.endswith("X") or mod == "C15":
             out.append(Campaign(mod, "plain-noslack", cases=(400000 if tier == "quick" else 4000000), keymap=(rx, prop)))
     return out
 
@@ -80,7 +80,9 @@ PROPS = {"C01": c01, "C02": c02, "C03": two_builds("C03"), "C04": two_builds("C0
          "C16": lambda tier, dev: run_cs_property("C16", tier, [Campaign("C16", "plain")] + fuzz_campaigns("C16", tier, ["C16"]), assumptions=ASSUME_GENERIC[:2] + ["comparators are consistent total preorders"], dev=dev),
          "C20": lambda tier, dev: run_cs_property("C20", tier, [Campaign("C20", "plain")], level="fault_enumeration", assumptions=ASSUME_GENERIC[:2] + ["allocation requests of the statically linked library are intercepted with -Wl,--wrap=malloc,calloc,realloc,free; allocations made inside libc on the library's behalf are not"], dev=dev),
          "C13": lambda tier, dev: run_cs_property("C13", tier, [Campaign("C13", "plain"), Campaign("C20", "plain", keymap=(r":wrong-handler-kind", "C13"))], assumptions=ASSUME_GENERIC[:2] + ["the harness owns the schedule: real pthreads execute one operation at a time, so the interleaving is the generated sequence", "the default handler is observed through -Wl,--wrap=ignore_handler_s"], dev=dev),
-         "C12": lambda tier, dev: run_cs_property("C12", tier, [Campaign("C12", "shared"), optional(Campaign("C12T", "tsan", cases=(3000 if tier == "quick" else 60000)))], assumptions=["O-B: the same calls made by two threads on private buffers under ThreadSanitizer (clang -fsanitize=thread build of library and harness); a reported race on an object of the executable is attributed by symbol", "x86-64 Linux/glibc; the harness is linked against libsafec.so built from the working tree (gcc -O1 -fPIC); the writable PT_LOAD segment of the library minus RELRO is its static storage", "state kept inside libc on the library's behalf is libc's reentrancy, not judged", "the handler registration words str_handler/mem_handler are the allowed mutable state"], dev=dev),
+         "C12": lambda tier, dev: run_cs_property("C12", tier, [Campaign("C12", "shared"), optional(Campaign("C12T", "tsan", cases=(3000 if tier == "quick" else 60000))),
+                                                                         Campaign("C05", "plain", cases=(600000 if tier == "quick" else 6000000), keymap=(r"^C12:", "C12")),
+                                                                         Campaign("C05X", "plain", cases=(600000 if tier == "quick" else 6000000), keymap=(r"^C12:", "C12"))], assumptions=["O-B: the same calls made by two threads on private buffers under ThreadSanitizer (clang -fsanitize=thread build of library and harness); a reported race on an object of the executable is attributed by symbol", "x86-64 Linux/glibc; the harness is linked against libsafec.so built from the working tree (gcc -O1 -fPIC); the writable PT_LOAD segment of the library minus RELRO is its static storage", "state kept inside libc on the library's behalf is libc's reentrancy, not judged", "the handler registration words str_handler/mem_handler are the allowed mutable state", "O-D: in the statically linked plain build, umask/chdir/setenv/unsetenv/putenv/srand/rand/strtok/asctime/ctime/gmtime/localtime/tmpnam(NULL)/setlocale(non-null) are interposed at link time; a call of one of them from inside a generated library call is use of process-wide state"], dev=dev),
          "C05": lambda tier, dev: run_cs_property("C05", tier, [Campaign("C05", "plain")] + foreign_campaigns("C05", tier), assumptions=ASSUME_GENERIC, dev=dev)}
 
 def external(prop, script):
